@@ -81,7 +81,7 @@ def extra_exprs():
              "$last - '0'", "$last + s.len", "s[1] + 1", "s[v0] * 2", "s[s.len - 1]", "v0 * 10 + ($last - '0')", "(v0 | ($last & 127)) << 7", "0x7f & v1", "0b101 ^ v2",
              "'a' + 1", "true && f", "v0 + true", "v0 / 3 % 5", "v0 % 7 / 2", "v0 - v1 - v2", "v0 / v1 / v2", "v0 >> 1 + 1", "v0 & v1 == v2", "v0 == v1 & v2",
              "v0 < v1 == f", "v0 | v1 && f", "(v0 & 0xff) == s.len", "v0 * v1 + v2 * v0", "2147483647 - v0", "v0 + 2147483647", "-2147483647 - 1 + v0", "u[0] + u.len", "v0 << v1", "v0 >> v1",
-             "s[0 - 1] + 1", "s[4]", "u[2] - u[0]", "!v0", "!(v0 & 4)", "!s.len", "!(v0 - v1)", "!s[1]", "!$last", "!(v0 + 1)", "!v2"]
+             "s[0 - 1] + 1", "s[4]", "u[2] - u[0]", "u[3]", "u[3] * 2 + u[1] - 1", "u[4] + 1", "s[3] + 1", "s[5]", "u[2]", "!v0", "!(v0 & 4)", "!s.len", "!(v0 - v1)", "!s[1]", "!$last", "!(v0 + 1)", "!v2"]
     out = []
     for t in texts:
         try:
@@ -166,9 +166,33 @@ def check_site(ast, text, types, site, st, tname):
         d['queries'] += sx['queries']; d['solver_time'] += sx['solver_time']
         d['cov']['states'] += 1
         for p in ex.paths:
-            if p.kind != 'RET':
+            if p.kind == 'UNWIND':
                 continue
             conds = []
+            if p.kind != 'RET':
+                # the emitted expression code faults (e.g. an index check that lets an out-of-range index through): a difference, if feasible
+                # on inputs where the source expression is defined
+                goal = z3.BoolVal(False)
+                d['obligations'] += 1
+                solver.push(); solver.add(*inv, *p.pc, z3.Not(ub.any()))
+                r, mdl = symx.robust_check(solver, retry_timeout_ms=30000); d['queries'] += 1
+                solver.pop()
+                key = f'{text} @{site}/{tname}'
+                if r == z3.unsat:
+                    d['discharged'] += 1
+                elif r == z3.unknown:
+                    d['inconclusive'].append('C14 ' + key + ' (aborting path)')
+                else:
+                    w = stepcmp.model_pre(L, mdl, data, sidx, None)
+                    byte = mdl.eval(b, model_completion=True).as_long()
+                    f = {'kind': 'c14-diff', 'what': 'emitted C for the expression accesses memory outside the object it indexes', 'detail': f'{site}: {p.kind}: {str(p.why)[:200]}',
+                         'sym': 'byte', 'byte': byte, 'pre': w, 'expr': text, 'site': site, 'types': tname, 'oracle_value': None,
+                         'label': text, 'cname': f'{site}/{tname}', 'flags': [], 'source': src}
+                    clog, diag = replay.run_c(comp, L.layout, {'pre': w, 'calls': [('feed', [byte])]}, sanitize=True)
+                    f['replay'] = {'reproduced': True if clog is not None else None, 'clog': str(clog)[:300], 'sanitizer': (diag or '')[:300],
+                                   'note': 'an in-struct read one element past an array is not reported by sanitizers; the symbolic path (sub-object bounds) is the evidence, the gcc build is run for the record'}
+                    findings.append(f)
+                continue
             snapc = L.snapshot(p.mem)
             if site == 'assign':
                 conds.append(('stored value of r', snapc[0]['r'] == C.convert(val, L.layout.ct['r']).v))
